@@ -11,6 +11,10 @@ Oracle        : on the REAL export: parse equality, clean verify() before and af
                 by the compiled independent checker `ahabCheck`, signature verification with `cryptography` (not through
                 spsdk.crypto) over exactly container[: sigblock offset + signature offset], SRK table hash; then single-bit
                 flips over authenticated bytes must be reported by verify() AND refused by the independent check.
+                Certificates (chain SRK -> certificate -> container, broken links refused, independent certificate check),
+                template entries (configuration value incl. 0/False else database default), create_config and CLI round trips.
+Independence  : expectations / finding predicates use the input, the real code, `cryptography` and the Spec-only driver op
+                `check` (ck.spec_ops); everything that depends on Model/ or Generated/ only feeds s.compare.
 """
 from __future__ import annotations
 
